@@ -157,7 +157,7 @@ fn main() {
                                     let msg = p.downcast_ref::<String>().cloned().or_else(|| p.downcast_ref::<&str>().map(|s| s.to_string())).unwrap_or_default();
                                     (json!({"err": "panic", "msg": msg}), None)
                                 });
-                                let rec = json!({"e": "recover", "pre": pre, "post": post, "len_read": n.map_or(-1, |x| x as i64)});
+                                let rec = json!({"e": "recover", "src": "built", "pre": pre, "post": post, "len_read": n.map_or(-1, |x| x as i64)});
                                 let case = json!({"quick": quick, "commits": commits, "god": god, "bad_sum": bad_sum, "order": order, "damaged": damaged, "length": length});
                                 seen.entry(rec.to_string()).and_modify(|e| e.1 += 1).or_insert((json!({"rec": rec, "case": case}), 1));
                             }
